@@ -31,7 +31,7 @@ ASSUMPTIONS = ["numpy back end only (torch not installed)",
                "reference cubic evaluated in longdouble"]
 
 KINDS = ["list", "float32", "float64", "longdouble", "int64"]
-DT = {"float32": np.float32, "float64": np.float64, "longdouble": np.longdouble, "int64": np.int64}
+DT = {"float32": np.float32, "float64": np.float64, "longdouble": np.longdouble, "int64": np.int64, "float16": np.float16}
 
 
 def _container(vals, kind):
@@ -75,7 +75,14 @@ def _bisect_gen(draw):
         if not (v > vals[-1]) or not np.isfinite(v):
             v = float(np.nextafter(vals[-1], np.inf))
         vals.append(v)
-    kind = draw(st.sampled_from(["list", "float64", "longdouble"]))
+    kind = draw(st.sampled_from(["list", "float64", "longdouble", "float32", "float16"]))
+    if kind in ("float32", "float16"):
+        # nodes of a narrower type than the (float64) queries: the comparison has to happen in the wider type - a query half an
+        # ulp of the node type above a node is above it. Values are kept in the range of the node type.
+        lim = 6e4 if kind == "float16" else 1e30
+        vals = [v for v in (float(np.dtype(kind).type(min(max(v, -lim), lim))) for v in vals)]
+        vals = sorted(set(vals))
+        n = len(vals)
     queries = []
     nq = draw(st.integers(1, 12))
     for _ in range(nq):
@@ -95,7 +102,10 @@ def _bisect_gen(draw):
         else:
             q = vals[-1] + draw(st.floats(0, 1e6))
         queries.append(q)
-    return dict(part="bisect_gen", arr=vals, kind=kind, queries=queries)
+    # how a scalar query is handed over: a numpy float64 scalar, a 0-d float64 array, or (only for nodes at least as wide)
+    # a Python float - numpy compares a Python float in the precision of the array, so for narrower nodes that is a different question
+    qtype = draw(st.sampled_from(["np64", "arr0d"] if kind in ("float32", "float16") else ["pyfloat", "np64", "arr0d"]))
+    return dict(part="bisect_gen", arr=vals, kind=kind, queries=queries, qtype=qtype)
 
 
 _SHAPES = [[], [1], [3], [2, 2], [2, 1, 3]]
@@ -154,7 +164,8 @@ def _check_bisect(case):
         has_eq |= qq in ref_arr
         has_out |= qq < ref_arr[0] or qq > ref_arr[-1]
         try:
-            got = deutil.search_bisection(arr, qq)
+            qt = case.get("qtype", "pyfloat")
+            got = deutil.search_bisection(arr, qq if qt == "pyfloat" else (np.float64(qq) if qt == "np64" else np.asarray(qq, dtype=np.float64)))
         except Exception as e:
             viols.append(V("bisect_scalar_raises", "search_bisection({}, {!r}) raised {!r}".format(ref_arr, qq, e), exc_sig(e)))
             got_scalar.append(None)
